@@ -48,6 +48,13 @@ pub fn instantiate(bytes: &[u8], v: VCfg, metering: Metering) -> anyhow::Result<
     instantiate_with(bytes, v, metering, &AllowAll)
 }
 
+/// Parse and validate only (no compilation): the verdict of `validate_module` itself.
+pub fn validate_only(bytes: &[u8], v: VCfg) -> anyhow::Result<()> {
+    let skeleton = concordium_wasm::parse::parse_skeleton(bytes)?;
+    concordium_wasm::validate::validate_module(v.real(), &AllowAll, &skeleton)?;
+    Ok(())
+}
+
 pub fn instantiate_with(
     bytes: &[u8],
     v: VCfg,
